@@ -16,6 +16,7 @@ import synkit.CRN.Topo.canon as _canon
 import synkit.CRN.Topo.automorphism as _aut
 from synkit.CRN.Topo.canon import CRNCanonicalizer, canonical
 from synkit.CRN.Topo.automorphism import CRNAutomorphism, detect_automorphisms
+from synkit.CRN.Topo.wl_canon import WLCanonicalizer, wl_canonical
 from synkit.CRN.Hypergraph.hypergraph import CRNHyperGraph
 
 from ..kernel import Sim, Violation, rng_for, derive
@@ -34,8 +35,9 @@ FAULT_OPS = ("alloc", "clock_tick", "clock_jump", "clock_freeze")
 # (probes "epoch_address_reused" / "ephemeral_id" only fire if the code under test calls id() on temporaries,
 #  which the repaired tree no longer does; they are kept for mutants and not required to be non-zero)
 PROBES = ["refinement_rounds_ge_2", "timeout_fired", "clock_went_backwards",
-          "symmetric_family", "same_hypergraph_object_reanalysed", "network_edited_between_analyses", "twin_compared", "neighbour_compared", "flagged_partial_answer", "slow_clock_default_timeout"]
-REAL = ["synkit.CRN.Topo.canon.CRNCanonicalizer (_init_part/_sig/_refine/_label/_search/_canon, summary/graph/orbits)",
+          "symmetric_family", "same_hypergraph_object_reanalysed", "network_edited_between_analyses", "wl_checked", "twin_compared", "neighbour_compared", "flagged_partial_answer", "slow_clock_default_timeout"]
+REAL = ["synkit.CRN.Topo.wl_canon.WLCanonicalizer / wl_canonical (sound checks only: isomorphic to view, colour classes coarsen true orbits, estimate >= true count, twin histograms equal)",
+        "synkit.CRN.Topo.canon.CRNCanonicalizer (_init_part/_sig/_refine/_label/_search/_canon, summary/graph/orbits)",
         "synkit.CRN.Topo.automorphism.CRNAutomorphism.summary / has_nontrivial_automorphism / detect_automorphisms",
         "synkit.CRN.Hypergraph.backend._CRNGraphBackend + conversion.hypergraph_to_bipartite / hypergraph_to_species_graph",
         "networkx DiGraphMatcher (VF2) as used by CRNAutomorphism"]
@@ -208,7 +210,9 @@ def generate(seed: int, tier: str = "quick") -> Dict[str, Any]:
             ops.append({"op": "edit", "s": s(), "rx": {"r": {sp[0]: rng.choice([1, 2])}, "p": {sp[1]: rng.choice([1, 1, 3])}}})
         which = rng.choice(["net", "net", "twin", "twin", "nbr"])
         tmo = rng.choice([None, None, None, 1e9]) if not clocky else rng.choice([None, None, 0, 0.5, 5, 1e9])
-        if rng.random() < 0.6:
+        if rng.random() < 0.12:
+            ops.append({"op": "wl", "s": s(), "which": which, "flags": list(flags), "api": rng.choice(["class", "func"])})
+        elif rng.random() < 0.6:
             ops.append({"op": "canon", "s": s(), "which": which, "timeout": tmo, "flags": list(flags),
                         "api": rng.choice(["summary", "summary", "graph", "canonical"])})
         else:
@@ -390,6 +394,41 @@ def _run(case: Dict[str, Any], sim: Sim, world: World, clock: SimClock) -> None:
         reused_before = len(world.main_alloc.reused_log)
         eph_before = sim.probes.get("ephemeral_id", 0)
         clock.begin_window()
+        if k == "wl":
+            site = "WLCanonicalizer.summary"
+            if op.get("api") == "func":
+                wl = wl_canonical(H, include_rule=bip, include_stoich=sto, integer_ids=iid)
+            else:
+                wl = WLCanonicalizer(H, include_rule=bip, include_stoich=sto, integer_ids=iid)
+            ws = wl.summary()
+            Gv = wl.G
+            check_view(which, H, Gv)
+            T = truth(which, Gv)
+            gc_ref = view_ref(ws["canon_graph"], bip, sto)
+            if not gr.exists(T["g"], gc_ref, mode="iso"):
+                raise Violation(PROP, site, "canon_not_isomorphic_to_view", cond_base + "; WL", {"net": nets[which]})
+            worb = [set(o) for o in ws["orbits"]]
+            for to in T["orbits"]:
+                if not any(to <= w for w in worb):
+                    raise Violation(PROP, site, "orbits_wrong", cond_base + "; WL colour classes split a true orbit",
+                                    {"true_orbit": sorted(map(str, to)), "wl": sorted(sorted(map(str, o)) for o in worb)})
+            if ws.get("automorphism_count") is not None and not T["capped"] and ws["automorphism_count"] < T["count"]:
+                raise Violation(PROP, site, "automorphism_count_wrong", cond_base + "; WL estimate below the true count",
+                                {"got": ws["automorphism_count"], "true": T["count"]})
+            hist = sorted(ws["color_hist"].items())
+            wk = ("wl", which, bip, sto and bip, version[0])
+            if canon_seen.get(wk, hist) != hist:
+                raise Violation(PROP, site, "result_not_repeatable", cond_base + "; WL", {})
+            canon_seen[wk] = hist
+            for other in ("net", "twin"):
+                ok_ = ("wl", other, bip, sto and bip, version[0])
+                if other != which and which in ("net", "twin") and ok_ in canon_seen and canon_seen[ok_] != hist:
+                    raise Violation(PROP, site, "twins_get_different_canon", cond_base + "; WL colour histogram",
+                                    {"net": nets["net"], "twin": nets["twin"]})
+            sim.probe("wl_checked")
+            sim.state(("wl", bip, sto, len(worb), Gv.number_of_nodes()))
+            sim.event("wl", {"which": which, "cells": len(worb), "iters": ws["iters_run"]})
+            continue
         if k == "canon":
             tmo = op["timeout"]
             site = "CRNCanonicalizer." + op["api"]
